@@ -5,6 +5,7 @@ CONSTANTS
   Tasks <- T3
   MCGated <- G2
   MaxOps <- Ops1_6
+  WithClear = FALSE
   FixJoin = TRUE
   FixGrow = TRUE
 INVARIANT ExactlyOnce
